@@ -146,8 +146,25 @@ func c35Order(p *an.Prog, r *an.R, pkg, name string) {
 	if !r.Anchor(d != nil && rename != nil && remove != nil && ifp != nil, pkg+"."+name+" / os.Rename / os.Remove") {
 		return
 	}
-	fname := an.FuncName(f)
 	info := d.Pkg.TypesInfo
+	// the removal and the publishing rename may have been split off into a helper of the package
+	if len(an.CallsTo(info, d.Decl.Body, false, rename)) == 0 {
+		var hf *types.Func
+		var hdd *an.DeclInfo
+		p.AllDecls(func(cf *types.Func, cd *an.DeclInfo) {
+			if cd.Pkg != d.Pkg || cd.Decl.Body == nil || cf == f || len(an.CallsTo(info, d.Decl.Body, false, cf)) == 0 {
+				return
+			}
+			if len(an.CallsTo(cd.Pkg.TypesInfo, cd.Decl.Body, false, rename)) > 0 && len(an.CallsTo(cd.Pkg.TypesInfo, cd.Decl.Body, false, remove)) > 0 {
+				hf, hdd = cf, cd // the helper does both steps: the ordering is decided there
+			}
+		})
+		if hf != nil {
+			f, d = hf, hdd
+			r.Fn(an.FuncName(f))
+		}
+	}
+	fname := an.FuncName(f)
 	g := an.NewG(info, d.Decl.Body)
 	isRename := g.HasCallTo(rename)
 	// functions of the same package whose body removes files: a call to one of them is a removal site
@@ -164,7 +181,18 @@ func c35Order(p *an.Prog, r *an.R, pkg, name string) {
 		}
 	})
 	isRemove := g.HasCallTo(removers...)
-	renames := g.Locs(func(n ast.Node) bool { return len(an.CallsTo(info, n, false, rename)) > 0 })
+	// likewise for the publishing renames
+	renamers := []*types.Func{rename}
+	p.AllDecls(func(hf *types.Func, hd *an.DeclInfo) {
+		if hd.Pkg != d.Pkg || hf == f || hd.Decl.Body == nil || strings.HasSuffix(p.Fset.Position(hd.Decl.Pos()).Filename, "_test.go") {
+			return
+		}
+		if len(an.CallsTo(info, d.Decl.Body, false, hf)) > 0 && len(an.CallsTo(hd.Pkg.TypesInfo, hd.Decl.Body, false, rename)) > 0 && len(an.CallsTo(hd.Pkg.TypesInfo, hd.Decl.Body, false, remove)) == 0 {
+			renamers = append(renamers, hf)
+		}
+	})
+	isRename = g.HasCallTo(renamers...)
+	renames := g.Locs(func(n ast.Node) bool { return len(an.CallsTo(info, n, false, renamers...)) > 0 })
 	removes := g.Locs(func(n ast.Node) bool {
 		if _, isDefer := n.(*ast.DeferStmt); isDefer {
 			return false
